@@ -6,6 +6,7 @@ import random
 from decimal import Decimal
 from fractions import Fraction
 
+from vpm import history
 from vpm.oracles import exact as ex
 from vpm.oracles import sphere as sp
 
@@ -58,7 +59,7 @@ POINTS = {
                              "i = compute_element(t, parameters2[3])"),
 }
 REQUIRED_POINTS = list(POINTS)
-REQUIRED_CLAUSES = ["L.range", "B<=i+0.05", "R.within-orbit",
+REQUIRED_CLAUSES = [history.CLAUSE, "L.range", "B<=i+0.05", "R.within-orbit",
                     "kepler.direction", "kepler.radius",
                     "evaluator==direct-sum.L", "evaluator==direct-sum.B",
                     "evaluator==direct-sum.R", "fk5.correction",
@@ -322,11 +323,12 @@ def case_const(mon, planet):
               dict(case, n_deg_per_day=n, gauss_n=nk))
 
 
-CASES = {"epoch": case_epoch, "walk": case_walk, "second": case_second,
+CASES = {"history": history.case, "epoch": case_epoch, "walk": case_walk, "second": case_second,
          "const": case_const}
 
 
 def run(mon, spec):
+    history.run_cases(mon, ID, spec)
     planet = spec["planet"]
     rng = random.Random(hash((spec["seed"], planet, spec.get("idx", 0),
                               spec.get("era", 0))) & 0xFFFFFFFF)
